@@ -136,6 +136,38 @@ pub fn frame_set(name: &str) -> Vec<FrameSpec> {
             ],
         ));
     };
+    // One (dirty, probe) pair per channel through which sequence-table state could leak from frame to frame: the dirty
+    // frame installs the state in its second block and repeats it in its third; the probe is the same frame WITHOUT the
+    // second block, so its repeat mode has nothing to repeat and it must fail on every decoder -- but it would decode
+    // "successfully" on a decoder that kept the state of the dirty frame.
+    let twins = |v: &mut Vec<FrameSpec>| {
+        let p = SeqMode::Predef;
+        let r = SeqMode::Repeat;
+        let channels: Vec<(&str, (SeqMode, SeqMode, SeqMode), (SeqMode, SeqMode, SeqMode))> = vec![
+            ("ll_rle", (SeqMode::Rle(2), p.clone(), p.clone()), (r.clone(), p.clone(), p.clone())),
+            ("of_rle", (p.clone(), SeqMode::Rle(3), p.clone()), (p.clone(), r.clone(), p.clone())),
+            ("ml_rle", (p.clone(), p.clone(), SeqMode::Rle(2)), (p.clone(), p.clone(), r.clone())),
+            ("ll_fse", (SeqMode::Fse(5, vec![8, 8, 8, 8]), p.clone(), p.clone()), (r.clone(), p.clone(), p.clone())),
+            ("of_fse", (p.clone(), SeqMode::Fse(5, vec![4, 4, 4, 4, 8, 8]), p.clone()), (p.clone(), r.clone(), p.clone())),
+            ("ml_fse", (p.clone(), p.clone(), SeqMode::Fse(5, vec![8, 8, 8, 8])), (p.clone(), p.clone(), r.clone())),
+        ];
+        for (ci, (name, set, rep)) in channels.into_iter().enumerate() {
+            let head = Blk::Raw(fresh(50, 60 + ci as u32));
+            // literal length 2 (code 2), offset value 8..15 (code 3), match length 5 (code 2): fits every RLE / FSE table above
+            let b2 = Blk::Comp { lits: Lits::Raw(fresh(4, 70 + ci as u32)), seqs: vec![(2, 9 + 3, 5), (2, 7 + 3, 5)], modes: set };
+            let b3 = Blk::Comp { lits: Lits::Raw(fresh(2, 80 + ci as u32)), seqs: vec![(2, 8 + 3, 5)], modes: rep };
+            let full = plain(&format!("dirty_{name}"), 0x00, ci % 2 == 0, vec![head.clone(), b2, b3]);
+            let built = build(&full);
+            // the serialized third block, verbatim
+            let mut at = built.hdr;
+            for b in &built.blocks[..2] {
+                at += 3 + b.c;
+            }
+            let body = built.bytes[at + 3..at + 3 + built.blocks[2].c].to_vec();
+            v.push(full);
+            v.push(plain(&format!("probe_{name}"), 0x00, false, vec![head, Blk::Verbatim { ty: 2, size_field: body.len() as u32, body, regen: None }, Blk::Raw(vec![])]));
+        }
+    };
     // C05: blocks at and beyond the 128 KiB limit; window 128 KiB (descriptor 0x38)
     let hostile = |v: &mut Vec<FrameSpec>| {
         let big = |name: &str, ml: u32, nseq: usize| {
@@ -186,6 +218,7 @@ pub fn frame_set(name: &str) -> Vec<FrameSpec> {
             small(&mut v);
             probes(&mut v);
             dirty(&mut v);
+            twins(&mut v);
         }
         "hostile" => {
             hostile(&mut v);
